@@ -80,6 +80,8 @@ import sys
 from register_crypto_plugin.ecdsa import curves as _curves, ellipticcurve as _ec
 from register_crypto_plugin.ecdsa.ellipticcurve import PointJacobi as _PJ, INFINITY as _INF
 import refec as _refec
+import pickle as _pickle
+import copy as _copy
 
 EC_FILE = _ec.__file__
 
@@ -120,7 +122,9 @@ def _ops(scenario, k1, k2, other):
              "xy": lambda P: (int(P.x()), int(P.y()), int(P.y()), int(P.x())),
              "eq": lambda P: (P == other, P == P, P + other == other + P)}
     b_ops = [lambda P: _affine(P.scale()), lambda P: _affine(P * k2), lambda P: _affine(P + other), lambda P: (int(P.x()), int(P.y())),
-             lambda P: P == other, lambda P: _affine(P.mul_add(k2, other, k1)), lambda P: _affine(P.double())]
+             lambda P: P == other, lambda P: _affine(P.mul_add(k2, other, k1)), lambda P: _affine(P.double()),
+             # serialising / copying the shared object is a read as well
+             lambda P: _affine(_pickle.loads(_pickle.dumps(P))), lambda P: _affine(_copy.copy(P)), lambda P: _affine(_copy.deepcopy(P))]
     return a_ops, b_ops
 
 
